@@ -888,20 +888,18 @@ impl<const N: usize, T> CircularBuffer<N, T> {
     }
 
     #[inline]
-    unsafe fn drop_range(&mut self, range: Range<usize>) {
+    unsafe fn drop_range(&mut self, start: usize, range: Range<usize>) {
         if range.is_empty() {
             return;
         }
 
-        debug_assert!(self.start < N, "start out-of-bounds");
-        debug_assert!(self.size <= N, "size out-of-bounds");
-        debug_assert!(range.start < self.size, "start of range out-of-bounds");
-        debug_assert!(range.end <= self.size, "end of range out-of-bounds");
+        // `start` is the position of the first element before the buffer was shrunk; callers
+        // shrink the buffer before calling this method, so `self.start` and `self.size` no longer
+        // describe the elements being dropped.
+        debug_assert!(start < N, "start out-of-bounds");
+        debug_assert!(range.start < N, "start of range out-of-bounds");
+        debug_assert!(range.end <= N, "end of range out-of-bounds");
         debug_assert!(range.start < range.end, "start of range is past its end");
-        debug_assert!(
-            range.start == 0 || range.end == self.size,
-            "range does not include boundary of the buffer"
-        );
 
         // Drops all the items in the slice when dropped. This is needed to ensure that all
         // elements are dropped in case a panic occurs during the drop of a single element.
@@ -918,8 +916,8 @@ impl<const N: usize, T> CircularBuffer<N, T> {
             }
         }
 
-        let drop_from = add_mod(self.start, range.start, N);
-        let drop_to = add_mod(self.start, range.end, N);
+        let drop_from = add_mod(start, range.start, N);
+        let drop_to = add_mod(start, range.end, N);
 
         let (right, left) = if drop_from < drop_to {
             (&mut self.items[drop_from..drop_to], &mut [][..])
@@ -1833,8 +1831,9 @@ impl<const N: usize, T> CircularBuffer<N, T> {
         // SAFETY: `drop_range` is a valid range, so elements within are guaranteed to be
         // initialized. The `size` of the buffer is shrunk before dropping, so no value will be
         // dropped twice in case of panics.
-        unsafe { self.drop_range(drop_range) };
+        let start = self.start;
         self.size = len;
+        unsafe { self.drop_range(start, drop_range) };
     }
 
     /// Shortens the buffer, keeping only the back `len` elements and dropping the rest.
@@ -1868,9 +1867,10 @@ impl<const N: usize, T> CircularBuffer<N, T> {
         // SAFETY: `drop_range` is a valid range, so elements within are guaranteed to be
         // initialized. The `start` of the buffer is shrunk before dropping, so no value will be
         // dropped twice in case of panics.
-        unsafe { self.drop_range(drop_range) };
+        let start = self.start;
         self.start = add_mod(self.start, drop_len, N);
         self.size = len;
+        unsafe { self.drop_range(start, drop_range) };
     }
 
     /// Drops all the elements in the buffer.
